@@ -109,6 +109,8 @@ func init() {
 			r.Floor("index_sites", 3000)
 			r.Floor("call_pairs", 200)
 			r.Floor("unit_typed_locals", 400)
+			r.Floor("strided_vector_indices", 500)
+			r.Floor("matrix_index_expressions", 1200)
 			res.Merge(r)
 			// the pure-Go kernels are only compiled under noasm/safe
 			rn := stride.Run(core.Config{Tags: "noasm"}, core.Pkgs("./internal/asm/f64", "./internal/asm/f32", "./internal/asm/c128", "./internal/asm/c64"))
@@ -252,7 +254,7 @@ func init() {
 
 func init() {
 	properties["C06"] = &property{
-		explanation: "Decides the 'reported through the ok/error result rather than a silently wrong answer' clause of C06 for every call site and return of mat and lapack64: OKFLOW.use — the ok/error/unconverged result of every non-query call to a LAPACK routine or to a mat factorization/solver reaches a branch, a field, a return or another call (def-use reachability on the CFG; explicit advisory discards are a frozen table); OKFLOW.report — no function returns a constant success on the path where a callee's status was false; OKFLOW.cond — all error-returning Solve*/Inverse* methods can return Condition, every finite Condition(x) is returned exactly under x > ConditionTolerance (the one tolerance object), Condition(+Inf) only under a failed status, and receivers that store a cond estimate report it. Does NOT decide reconstruction identities, update formulas or cross-factorization consistency.",
+		explanation: "Decides the 'reported through the ok/error result rather than a silently wrong answer' clause of C06 for every call site and return of mat and lapack64: OKFLOW.use — the ok/error/unconverged result of every non-query call to a LAPACK routine or to a mat factorization/solver reaches a branch, a field, a return or another call (def-use reachability on the CFG; explicit advisory discards are a frozen table); OKFLOW.report — no function returns a constant success on the path where a callee's status was false; OKFLOW.cond — all error-returning Solve*/Inverse* methods can return Condition, every finite Condition(x) is returned exactly under x > ConditionTolerance (the one tolerance object), Condition(+Inf) only under a failed status, and receivers that store a cond estimate report it. STRIDE on the factorization files (a strided right-hand side or update vector is addressed with its own increment; its Data is treated as contiguous only under a test of Inc). Does NOT decide reconstruction identities, update formulas or cross-factorization consistency.",
 		assumptions: commonAssumptions,
 		run: func(tier string, res *core.Result) {
 			r := okflow.Run(def, core.Pkgs("./mat", "./lapack/lapack64", "./lapack/gonum"))
@@ -261,6 +263,14 @@ func init() {
 			r.Floor("condition_returns", 25)
 			r.Floor("status_propagation_sites", 40)
 			res.Merge(r)
+			// factor updates must address strided operands with their own increment
+			anch, err := core.PropertyAnchors("C06")
+			if err != nil {
+				res.Brokenf("%v", err)
+			}
+			st := stride.Run(def, core.Scope{Patterns: []string{"./mat"}, Files: func(rel string) bool { return anch[rel] }})
+			st.Floor("index_sites", 60)
+			res.Merge(st)
 			if tier == "thorough" {
 				// the same rules under the configurations the suite never builds
 				for _, c := range []core.Config{{Tags: "safe"}, {Tags: "noasm bounds"}, {GOARCH: "386"}} {
